@@ -39,7 +39,7 @@ def rule_framing(program, ctx):
         "notifier.py: each `await reader.<read>(n)` whose result is relayed or decoded as an id must be `readexactly(32)` (StreamReader.read(n) "
         "returns *up to* n bytes: a split inside an id de-synchronises all following ids and interleaves fragments of different peers); the "
         "writer side sends event.id_bytes (32 bytes)",
-        floor=3,
+        floor=2,
     )
     m = program.module("nostr_relay.notifier")
     reads = 0
@@ -80,7 +80,7 @@ def rule_recipients(program, ctx):
         "NotifyServer.handle_notify: inside the iteration over the peer table each write is guarded by `peer != writer` (no echo to the origin); "
         "no await separates reading the peer table from the end of the stream read (recipients are those connected when the id arrived); when "
         "the loop body awaits, the table is iterated through list()/tuple() (a peer connecting meanwhile must not raise RuntimeError and kill the relay loop)",
-        floor=3,
+        floor=1,
     )
     fn = program.func("nostr_relay.notifier:NotifyServer.handle_notify")
     cfg = cfg_of(fn)
@@ -152,7 +152,7 @@ def rule_fanout(program, ctx):
         "C20.fanout",
         "NotifyClient.connect: event = await self.storage.get_event(<record>.hex()); if event: await self.storage.notify_all_connected(event) - the very "
         "function the local admission path calls; nothing else is done with the id",
-        floor=2,
+        floor=1,
     )
     fn = program.func("nostr_relay.notifier:NotifyClient.connect")
     ge = [s for s in walk_no_nested(fn) if isinstance(s, ast.Assign) and isinstance(strip_await(s.value), ast.Call) and call_name(strip_await(s.value)) == "self.storage.get_event"]
@@ -175,7 +175,7 @@ def rule_announce(program, ctx):
         "each add_event closure calls notify_other_processes(event) after notify_all_connected(event), and on SQL outside the transaction region "
         "(a peer looks the id up immediately: before commit it finds nothing and drops the id); BaseStorage.notify_other_processes sends iff "
         "self.notifier; setup() creates the NotifyClient iff Config.should_run_notifier",
-        floor=4,
+        floor=2,
     )
     sites = [program.func("nostr_relay.storage.db:DBStorage.add_event"), program.func("nostr_relay.storage.kv:LMDBStorage.post_save")]
     for fn in sites:
